@@ -73,12 +73,23 @@ def write_eval(prog: Program, layout: str, finished: bool, more: bool = True, lo
             return None
         if "record_count" in t and "num_records" in t:
             n = ast.parse(t, mode="eval").body
-            if isinstance(n, ast.Compare) and isinstance(n.ops[0], ast.Lt) and unparse(n.left) == "self.record_count":
-                return more
+            neg = False
+            while isinstance(n, ast.UnaryOp) and isinstance(n.op, ast.Not):
+                n, neg = n.operand, not neg
+            if isinstance(n, ast.Compare) and len(n.ops) == 1:
+                l, r, op = unparse(n.left), unparse(n.comparators[0]), type(n.ops[0])
+                if l == "self.num_records" and r == "self.record_count":
+                    l, r = r, l
+                    op = {ast.Lt: ast.Gt, ast.Gt: ast.Lt, ast.LtE: ast.GtE, ast.GtE: ast.LtE}.get(op, op)
+                if l == "self.record_count" and r == "self.num_records":
+                    if op is ast.Lt:
+                        return more ^ neg
+                    if op is ast.GtE:
+                        return (not more) ^ neg
             return None
         return None
 
-    it = Interp(prog, dom, depth=1, call_hook=hook, decide_hook=decide)
+    it = Interp(prog, dom, depth=3, call_hook=hook, decide_hook=decide)  # private helpers of write are inlined
     it.objenv.update({
         "output.local_instance_count": NF.atom("lic"),
         "output.local_record_count": NF.atom("lrc"),
@@ -207,7 +218,14 @@ def create_rules(prog: Program, rep: Report) -> None:
     rep.check("R06.2", fi.qual, "local_num_records = min(numrec, records remaining)", ok, what_bad=f"got {unparse(m[0].value) if m else None}", what_ok="min(numrec, num_records - record_count)", loc=fi.loc())
     # time units vs nctime unit
     tk = prog.module("timekeeper")
-    units = [n for n in walk_no_nested(fi.node) if isinstance(n, ast.Assign) and unparse(n.targets[0]) == "v.units"]
+    # the name bound to createVariable("time", ...), whatever it is called
+    tnames = [unparse(n.targets[0]) for n in walk_no_nested(fi.node) if isinstance(n, ast.Assign) and isinstance(n.value, ast.Call) and isinstance(n.value.func, ast.Attribute) and n.value.func.attr == "createVariable" and n.value.args and isinstance(n.value.args[0], ast.Constant) and n.value.args[0].value == "time"]
+    units = []
+    if tnames:
+        first_time = min(n.lineno for n in walk_no_nested(fi.node) if isinstance(n, ast.Assign) and unparse(n.targets[0]) == tnames[0] and isinstance(n.value, ast.Call) and n.value.args and isinstance(n.value.args[0], ast.Constant) and n.value.args[0].value == "time")
+        later_rebind = [n.lineno for n in walk_no_nested(fi.node) if isinstance(n, ast.Assign) and unparse(n.targets[0]) == tnames[0] and n.lineno > first_time]
+        limit = min(later_rebind) if later_rebind else 10**9
+        units = [n for n in walk_no_nested(fi.node) if isinstance(n, ast.Assign) and unparse(n.targets[0]) == f"{tnames[0]}.units" and first_time < n.lineno < limit]
     ok = False
     if units:
         u = units[0].value
@@ -229,37 +247,52 @@ def create_rules(prog: Program, rep: Report) -> None:
 
 def particle_variable_rules(prog: Program, rep: Report) -> None:
     rule = "R06.4"
-    fi = prog.role_func("output", "write_particle_variables")
-    defs = [n for n in walk_no_nested(fi.node) if isinstance(n, ast.Assign) and unparse(n.targets[0]) == "npart"]
-    src = unparse(defs[0].value) if defs else None
-    ok = src in ("state.npid", "int(state.npid)")
-    rep.check(rule, fi.qual, f"extent of the particle dimension: npart = {src}", ok, what_bad="the extent must be the release counter state.npid: anything derived from the instance arrays (pid.max(), len(state)) shrinks when the highest pids die and is undefined for an empty state", what_ok="state.npid", loc=fi.loc())
+    from ..program import inline_helpers, path_records, single_defs
+
+    fi = inline_helpers(prog, prog.role_func("output", "write_particle_variables"))
     loop = [n for n in walk_no_nested(fi.node) if isinstance(n, ast.For)]
     rep.check(rule, fi.qual, "loop over the configured particle variables", len(loop) == 1 and unparse(loop[0].iter) == "self.particle_variables", what_bad="not all particle variables are written", what_ok="all", loc=fi.loc())
     if len(loop) != 1:
         return
     var = unparse(loop[0].target)
+    # definitions made before the loop (the extent, hoisted dtypes) are expanded into the loop body
+    pre = {k: v for k, v in single_defs(fi.node).items() if not any(isinstance(x, ast.Name) and x.id == k and isinstance(x.ctx, ast.Store) for x in ast.walk(loop[0]))}
+    import copy
+
+    from ..program import _Subst
+
+    pre = {k: _Subst(dict(pre)).visit(copy.deepcopy(v)) for k, v in pre.items()}
     n_time = n_plain = 0
-    for p in enumerate_paths(loop[0].body):
-        recs, env = sequential_expand(p.stmts())
-        stores = [(st, v) for st, v in recs if isinstance(st, ast.Assign) and isinstance(st.targets[0], ast.Subscript) and "nc.variables" in unparse(st.targets[0]) or (isinstance(st, ast.Assign) and isinstance(st.targets[0], ast.Subscript) and unparse(st.targets[0]).startswith(f"ncvars[{var}]"))]
-        time_path = any(("datetime64" in unparse(t) or "M8" in unparse(t)) and taken for t, taken in p.conds())
+    extents = set()
+    for p, conds, stores in path_records(loop[0].body, init_env=pre):
+        st_ = [(t, v, node) for t, v, node in stores if t.startswith((f"self.nc.variables[{var}]", f"self.nc[{var}]"))]
+        time_path = None
+        for text, taken in conds:
+            if "datetime64" in text or "M8" in text:
+                eq = "==" in text and "!=" not in text
+                time_path = taken if eq else (not taken)
         desc = "time-typed variable" if time_path else "plain variable"
-        if len(stores) != 1:
-            rep.bad(rule, fi.qual, f"{desc}: store", f"{len(stores)} stores on this path", fi.loc())
+        if len(st_) != 1 or time_path is None:
+            rep.bad(rule, fi.qual, f"{desc}: store", f"{len(st_)} stores on the path {p.describe()} (time-typed test found: {time_path is not None})", fi.loc())
             continue
-        st, v = stores[0]
-        tgt = st.targets[0]
-        vt = unparse(v)
-        slice_ok = unparse(tgt.slice) == ":npart" and "[:npart]" in vt
+        t, vt, node = st_[0]
+        m = re.fullmatch(r".*\]\[:(.+)\]", t)
+        ext = m.group(1) if m else None
+        extents.add(ext)
         if time_path:
             n_time += 1
-            ok = slice_ok and "self.timer.reference_time" in vt and f"state[{var}]" in vt and "np.timedelta64(1, self.time_unit)" in vt and " - self.timer.reference_time" in vt and "/" in vt
-            rep.check(rule, fi.qual, "time-typed particle variables: (value - reference_time)/unit stored at [:npart]", ok, what_bad=f"stored value `{vt[:160]}` at [{unparse(tgt.slice)}]", what_ok="relative to reference_time, index pid < npart", loc=fi.loc(st))
+            ok = ext is not None and vt in (
+                f"(state[{var}].astype('M8[s]') - self.timer.reference_time)[:{ext}] / np.timedelta64(1, self.time_unit)",
+                f"((state[{var}].astype('M8[s]') - self.timer.reference_time) / np.timedelta64(1, self.time_unit))[:{ext}]",
+                f"(state[{var}][:{ext}].astype('M8[s]') - self.timer.reference_time) / np.timedelta64(1, self.time_unit)",
+            )
+            rep.check(rule, fi.qual, "time-typed particle variables: (value - reference_time)/unit stored at [:npart]", ok, what_bad=f"stored value `{vt[:160]}` at `{t}`", what_ok="relative to reference_time, index pid < npart", loc=fi.loc(node))
         else:
             n_plain += 1
-            ok = slice_ok and vt == f"state[{var}][:npart]"
-            rep.check(rule, fi.qual, "particle variables stored at index pid for pid < npart", ok, what_bad=f"stored value `{vt[:160]}` at [{unparse(tgt.slice)}]", what_ok="state[var][:npart]", loc=fi.loc(st))
+            ok = ext is not None and vt == f"state[{var}][:{ext}]"
+            rep.check(rule, fi.qual, "particle variables stored at index pid for pid < npart", ok, what_bad=f"stored value `{vt[:160]}` at `{t}`", what_ok="state[var][:npart]", loc=fi.loc(node))
+    src = sorted(str(e) for e in extents)
+    rep.check(rule, fi.qual, f"extent of the particle dimension: npart = {src[0] if len(src) == 1 else src}", extents <= {"state.npid", "int(state.npid)"} and bool(extents), what_bad="the extent must be the release counter state.npid: anything derived from the instance arrays (pid.max(), len(state)) shrinks when the highest pids die and is undefined for an empty state", what_ok="state.npid", loc=fi.loc())
     rep.check(rule, fi.qual, "both kinds of particle variables handled", n_time >= 1 and n_plain >= 1, what_bad=f"{n_time} time-typed path(s), {n_plain} plain path(s)", what_ok="time-typed and plain", loc=fi.loc())
 
 
